@@ -28,6 +28,7 @@ import (
 	"github.com/tikv/pd/server/schedule"
 	"github.com/tikv/pd/server/schedule/filter"
 	"github.com/tikv/pd/server/schedule/operator"
+	"github.com/tikv/pd/server/schedule/opt"
 	"github.com/tikv/pd/server/schedule/placement"
 	"github.com/tikv/pd/server/versioninfo"
 	"go.uber.org/zap"
@@ -85,6 +86,9 @@ type caseIn struct {
 	// heartbeats; commands applied or lost, leadership moved between heartbeats at unchanged epoch); the seed fixes
 	// every choice of that run
 	ExecSeed uint64 `json:"exec_seed,omitempty"`
+	// AllocFail = k > 0: the k-th AllocID call the builder makes fails (the allocator could not persist its next window);
+	// Build has to give up - a plan built without the peer whose id could not be allocated is judged like any other plan
+	AllocFail int `json:"alloc_fail,omitempty"`
 }
 
 var roleOfName = map[string]metapb.PeerRole{"voter": metapb.PeerRole_Voter, "learner": metapb.PeerRole_Learner,
@@ -208,6 +212,7 @@ type world struct {
 	cancel context.CancelFunc
 	region *core.RegionInfo
 	rules  []string // CRule cases: the real leader-target filter on every store of the case
+	alloc  *failingAlloc
 }
 
 func buildWorld(c *caseIn) *world {
@@ -380,8 +385,29 @@ func callHelper(region *core.RegionInfo, fn interface{}, args ...interface{}) (*
 	return op, err
 }
 
+// failingAlloc is the case's cluster with an id allocator that fails on demand.
+type failingAlloc struct {
+	*mockcluster.Cluster
+	failAt, calls int
+	failed        bool
+}
+
+func (f *failingAlloc) AllocID() (uint64, error) {
+	f.calls++
+	if f.calls == f.failAt {
+		f.failed = true
+		return 0, fmt.Errorf("alloc id: etcd transaction failed")
+	}
+	return f.Cluster.AllocID()
+}
+
 func runBuilder(w *world, c *caseIn) (*operator.Operator, error) {
-	tc, region := w.tc, w.region
+	var tc opt.Cluster = w.tc
+	region := w.region
+	if c.AllocFail > 0 {
+		w.alloc = &failingAlloc{Cluster: w.tc, failAt: c.AllocFail}
+		tc = w.alloc
+	}
 	arg := func(k string) opSpec {
 		for _, o := range c.Ops {
 			if o.K == k {
@@ -731,6 +757,7 @@ type caseOut struct {
 	Exec  []execEntry  `json:"executor,omitempty"`
 	execCoq string
 	rules []string
+	skipped string
 	Err   string       `json:"build_error,omitempty"`
 	Steps []string     `json:"steps,omitempty"`
 	Trace []traceEntry `json:"trace,omitempty"`
@@ -747,6 +774,10 @@ func runCase(rn *runner, c *caseIn) caseOut {
 	clusterTerm := coqCluster(w, c)
 	out.rules = w.rules
 	op, err := runBuilder(w, c)
+	if w.alloc != nil && w.alloc.failed && err != nil {
+		out.skipped = "alloc-failure:build-gave-up"
+		return out
+	}
 	var steps []operator.OpStep
 	outTerm := "BuildErr"
 	if err != nil {
@@ -1134,6 +1165,9 @@ func genRandom(r *rng.R, n int) *caseIn {
 	}
 	if r.Pct(35) {
 		c.ExecSeed = 1 + r.U64()%1000000
+	}
+	if r.Pct(12) {
+		c.AllocFail = 1 + r.Pick(70, 30)
 	}
 	return c
 }
@@ -1527,6 +1561,13 @@ func main() {
 			return
 		}
 		o := runCase(rn, c)
+		if o.skipped != "" {
+			R.Count(o.skipped)
+			return
+		}
+		if c.AllocFail > 0 {
+			R.Count("alloc-failure:not-reached-or-plan-built")
+		}
 		R.Count("gen:" + c.Gen)
 		R.Count("via:" + c.Via)
 		R.Count(fmt.Sprintf("stores:%d", len(c.Stores)))
